@@ -32,6 +32,9 @@ type Runner struct {
 	// every disagreement with the real binary (Real*), and FastCross() programs are compiled
 	// both ways and compared.
 	Fast     bool
+	realOnce sync.Once
+	real     *Runner
+	prefix   string
 	poolOnce sync.Once
 	pool     *fe.Pool
 	FastN    int64 // programs compiled in-process
@@ -104,9 +107,25 @@ func runProc(timeout time.Duration, dir string, env []string, name string, args 
 	return p
 }
 
+// Real returns a runner on the same scratch area that always starts the `ferret` binary
+// (used to confirm what a fast runner observed before it is reported).
+func (r *Runner) Real() *Runner {
+	if !r.Fast {
+		return r
+	}
+	r.realOnce.Do(func() {
+		r.real = &Runner{Ferret: r.Ferret, Libs: r.Libs, W: r.W, Repo: r.Repo, Dir: r.Dir, CompileTimeout: r.CompileTimeout, RunTimeout: r.RunTimeout, prefix: "r"}
+	})
+	return r.real
+}
+
 // NewDir returns a fresh project directory.
 func (r *Runner) NewDir() string {
-	d := filepath.Join(r.W, "run", fmt.Sprintf("p%d", atomic.AddInt64(&r.seq, 1)))
+	pre := r.prefix
+	if pre == "" {
+		pre = "p"
+	}
+	d := filepath.Join(r.W, "run", fmt.Sprintf("%s%d", pre, atomic.AddInt64(&r.seq, 1)))
 	os.MkdirAll(d, 0o755)
 	return d
 }
@@ -153,6 +172,24 @@ func (r *Runner) fastPool() *fe.Pool {
 		r.pool.Env = []string{"FERRET_LIBS_PATH=" + r.Libs, "GOMAXPROCS=1"}
 	})
 	return r.pool
+}
+
+// FrontEnd runs the front end alone (no code generation) on n single-file programs in the
+// in-process workers and reports acceptance and the rendered diagnostics of each.
+func (r *Runner) FrontEnd(n int, src func(i int) string, f func(i int, ok bool, msg string)) {
+	r.fastPool().Map(n, func(i int) *fe.Project {
+		return &fe.Project{Files: map[string]string{"main.fer": src(i)}, Entry: "main.fer", Mode: "check", WantText: true}
+	}, func(i int, res *fe.Result) {
+		if res.Timeout || res.Crash != "" {
+			f(i, true, "") // no answer: let the pack decide
+			return
+		}
+		if res.Panic != "" {
+			f(i, false, "panic: "+res.Panic)
+			return
+		}
+		f(i, res.Success, res.Rendered)
+	})
 }
 
 // Close stops the in-process compile workers (if any were started).
